@@ -130,7 +130,8 @@ def inducing(g, batch, M, d):
 
 
 def generic_params(kind, g, batch, M):
-    tri = torch.tril(0.3 * util.randn(g, *batch, M, M), -1)
+    # off-diagonal scale shrinks with M so that triangular factors of large grids stay well conditioned
+    tri = torch.tril(0.3 * min(1.0, 2.0 / math.sqrt(M)) * util.randn(g, *batch, M, M), -1)
     if kind == "Cholesky":
         # the upper triangle is documented as ignored: fill it with junk
         junk = torch.triu(util.randn(g, *batch, M, M), 1)
@@ -368,8 +369,11 @@ class Case:
         m_u, S_u = RV.unwhiten(mz, R, m, Sq)
         kl = RV.kl_q_p(m, Sq, torch.zeros(M, dtype=F64), eye(M))
         mean, cov = RV.predictive(Kxx, Kxz, Ktz, mx, mz, m_u, S_u)
+        alt = None
+        if self.s == "CIQ":
+            alt = dict(mean=mean, cov=cov + 2 * self.jit * eye(n), text="(= closed form with the jitter added twice to the diagonal of Kxx)")
         return dict(mean=mean, cov=cov + self.jit * eye(n), kl=kl, prior_mean=mx, prior_cov=Kxx + self.jit * eye(n), kl_zero=True,
-                    q_u=(m_u, S_u), terms=(Zb, Xb))
+                    q_u=(m_u, S_u), alt=alt)
 
     def ref_BatchDecoupled(self, mode):
         B, M, n, d = self.B, self.M, self.n, self.d
